@@ -60,6 +60,13 @@ class VpC15Mode(SerializableEnum):
     AUTO = "Auto mode"
 
 
+class VpC15Rot(SerializableEnum):
+    # string values drawn from the vocabulary of the member names (each value is ANOTHER member's name)
+    ROCK = "SCISSORS"
+    SCISSORS = "PAPER"
+    PAPER = "ROCK"
+
+
 class VpC15Basic(Serializable):
     i: int = 0
     f: float = 0.0
@@ -67,6 +74,7 @@ class VpC15Basic(Serializable):
     b: bool = False
     color: VpC15Color = VpC15Color.RED
     mode: VpC15Mode = VpC15Mode.OFF
+    rot: VpC15Rot = VpC15Rot.ROCK
 
 
 class VpC15Pair(Serializable):
@@ -83,6 +91,7 @@ class VpC15Lists(Serializable):
     lb: List[bool] = None
     lc: List[VpC15Color] = None
     lm: List[VpC15Mode] = None
+    lr: List[VpC15Rot] = None
     lo: List[VpC15Basic] = None
     lp: List[VpC15Pair] = None
 
@@ -123,6 +132,8 @@ class VpC15Dicts(Serializable):
     cc: Dict[VpC15Color, VpC15Color] = None
     co: Dict[VpC15Color, VpC15Basic] = None
     mi: Dict[VpC15Mode, int] = None
+    ri: Dict[VpC15Rot, int] = None
+    ir: Dict[int, VpC15Rot] = None
     mo: Dict[VpC15Mode, VpC15Pair] = None
 
 
@@ -141,12 +152,12 @@ class VpC15Top(Serializable):
     both: Tuple[VpC15Tuples, VpC15Sets] = None
 
 
-ENUM_LIST = (VpC15Color, VpC15Mode)
+ENUM_LIST = (VpC15Color, VpC15Mode, VpC15Rot)
 CLASS_LIST = (VpC15Basic, VpC15Pair, VpC15Lists, VpC15Sets, VpC15Tuples, VpC15Dicts, VpC15Top)
 # register with c13's spec builder
 c13.ENUMS.update({c.__name__: c for c in ENUM_LIST})
 c13.ENUM_MEMBERS.update({"VpC15Color": ["RED", "GREEN", "BLUE", "DARK_BLUE", "C_5", "NEGATIVE"],
-                         "VpC15Mode": ["ON", "OFF", "AUTO"]})
+                         "VpC15Mode": ["ON", "OFF", "AUTO"], "VpC15Rot": ["ROCK", "SCISSORS", "PAPER"]})
 c13.CLASSES.update({c.__name__: c for c in CLASS_LIST})
 # the harness' own field lists, from the annotations in definition order
 for _c in CLASS_LIST:
@@ -269,8 +280,40 @@ def plain_problem(j, path="$"):
 
 
 # ----------------------------------------------------------------------------- oracle
+def alias_pass(x, depth=0):
+    """make the object graph a DAG: one nested instance referenced from two places (both object-typed fields of the same
+    class, twice in a list of objects).  Returns the number of shared references created."""
+    n = 0
+    if depth > 6 or not isinstance(x, Serializable):
+        return 0
+    name = type(x).__name__
+    firsts = {}
+    for f, sch in SCHEMA.get(name, {}).items():
+        v = getattr(x, f, None)
+        if isinstance(sch, tuple) and sch[0] == "obj" and isinstance(v, Serializable):
+            if sch[1] in firsts:
+                setattr(x, f, firsts[sch[1]])
+                n += 1
+            else:
+                firsts[sch[1]] = v
+                n += alias_pass(v, depth + 1)
+        elif isinstance(sch, tuple) and sch[0] == "list" and isinstance(sch[1], tuple) and sch[1][0] == "obj" and v:
+            for e in v:
+                n += alias_pass(e, depth + 1)
+            v.append(v[0])
+            n += 1
+        elif isinstance(sch, tuple) and sch[0] == "dict" and isinstance(sch[2], tuple) and sch[2][0] == "obj" and v and len(v) >= 2:
+            ks = list(v)
+            v[ks[1]] = v[ks[0]]
+            n += 1
+    return n
+
+
 def check_json(ctx, spec):
     x = c13.build(spec)
+    if spec.get("alias"):
+        if alias_pass(x):
+            ctx.label("object-graph-with-shared-instance")
     cls = type(x)
     exp = normj(x)
 
@@ -537,10 +580,12 @@ def run_shard(spec, ctx):
     c13.limit_memory()
     strat = obj_strategy(spec["cls"])
 
-    @ctx.given(spec["n"], strat, salt="json/%s/%s" % (spec["cls"], spec.get("i", 0)))
-    def test(ospec):
+    @ctx.given(spec["n"], strat, st.sampled_from([False, False, True]), salt="json/%s/%s" % (spec["cls"], spec.get("i", 0)))
+    def test(ospec, alias):
         if ctx.out_of_time():
             return
+        if alias:
+            ospec = dict(ospec, alias=True)
         ctx.case({"part": "json", "value": ospec})
         if json_body(ctx, ospec) and ctx.evaluations > 200 and len(ctx.samples) < ctx.MAX_SAMPLES and len(repr(ospec)) < 2500:
             ctx.sample({"part": "json", "value": ospec})
